@@ -45,6 +45,10 @@ Filtered(v) ==
                     nbg |-> Len(U[i].rules[j].bg),
                     scenarios |-> Keep(v, U[i].rules[j].scenarios)]]]]
 
+\* the scenarios a run starts (through runner::Basic, hooks added with the Cucumber builder after
+\* the CLI options were given)
+Accepted(v) == {s \in ScenNames(U) : Accept(v, s)}
+
 \* ---- laws of the evaluation, checked by TLC over all expressions of depth <= 2 ----
 TagNames == {"a", "b", "c"}
 Depth0 == {Tag(t) : t \in TagNames}
